@@ -305,9 +305,6 @@ class ClassifyClone:
 # ------------------------------------------------------------------ config switches (linter.py)
 @contract(L + "_should_skip_call", props=["C17"], types=dict(call=CloneCallT, config=CloneConfigT), returns=Bool)
 class ShouldSkipCall:
-    def requires(call, config):
-        return call.pattern in ("clone-in-loop", "clone-chain", "unnecessary-clone")
-
     def value(call, config):
         return ((call.is_in_test and config.allow_in_tests)
                 or (call.pattern == "clone-in-loop" and not config.detect_clone_in_loop)
